@@ -723,6 +723,9 @@ void File::uncompressedFile2ReadWriteQueue() {
         /* in case of unknown objectType */
         /* always skip at least the header just read, so that a bogus objectSize cannot stall the reader */
         m_uncompressedFile.seekg(ohb.objectSize > ohb.calculateHeaderSize() ? ohb.objectSize : ohb.calculateHeaderSize(), std::ios_base::cur);
+
+        /* drop old data */
+        m_uncompressedFile.dropOldData();
         return;
     }
 
